@@ -793,7 +793,10 @@ pub fn gen_select_scenario(rng: &mut Rng, out: &mut String) {
             3..=6 => {
                 out.push_str(rng.pick_str(&["<option selected>", "<option selected>", "<option>", "<option selected=a id=o>"]));
                 for _ in 0..rng.small(3) {
-                    out.push_str(rng.pick_str(&["a", "b c", "<b>x</b>", "<i>", "<selectedcontent></selectedcontent>", "<selectedcontent>in</selectedcontent>", "<!--c-->", "&amp;", "<div>d</div>", "<svg><g/></svg>", "<template>t</template>", "<div><template><b>x</b></template></div>"]));
+                    out.push_str(rng.pick_str(&["a", "b c", "<b>x</b>", "<i>", "<selectedcontent></selectedcontent>", "<selectedcontent>in</selectedcontent>", "<!--c-->", "&amp;", "<div>d</div>", "<svg><g/></svg>", "<template>t</template>", "<div><template><b>x</b></template></div>",
+                        // everything an element carries besides name and attributes has to survive the copy
+                        "<math><annotation-xml encoding=text/html>m</annotation-xml></math>", "<math><annotation-xml encoding=application/xhtml+xml><p>q</annotation-xml></math>",
+                        "<svg><foreignObject>f</foreignObject></svg>", "<script>s</script>", "<a href=u id=i class=c>l</a>"]));
                 }
                 out.push_str(rng.pick_str(&["</option>", "</option>", "</option>", ""]));
             },
